@@ -59,6 +59,7 @@ def annotations(tier):
     specs.append([(full, 0, 0), (full[:-1], 0, 0)])
     specs.append([(full, 0, 0), (full[1:], 0, 0), (full[:-1], 0, 0)])
     specs.append([(full, 0, 0), ((1,), 0, 0)])                # mono-exonic isoform inside
+    specs.append([(full, 0, 0), (full[:-1] + (nslots,), 0, 0)])          # alternative last exon (non-overlapping, further downstream)
     # isoform pairs whose introns differ by a 3-bp (or 5-bp) splice-site shift: within delta of precise/default/loose, not of exact
     specs.append([(full, 0, 0), (full, 0, 0, ((1, 0, 3),))])     # alternative acceptor +3 at exon 2
     specs.append([(full, 0, 0), (full, 0, 0, ((1, 1, -3),))])    # alternative donor -3 at exon 2
@@ -221,9 +222,20 @@ def negative_reads(tid, chrom, strand, exons):
         out.append(("novel-exon", [exons[0], (mid - 60, mid + 60)] + list(exons[1:])))           # novel exon in an intron
         out.append(("retention", [(exons[0][0], exons[1][1])] + list(exons[2:])))                # intron retained
         out.append(("far-site", [(exons[0][0], exons[0][1] - 90)] + list(exons[1:])))            # donor moved 90 bp
-        out.append(("extended", [(exons[0][0] - 450, exons[0][1])] + list(exons[1:])))           # end extended by 450 bp
-    return [{"blocks": [tuple(b) for b in bl], "extras": {"reverse": strand == "-"}, "kind": kind, "T": tid, "chr": chrom} for kind, bl in out
-            if all(b[0] >= 1 for b in bl)]
+        out.append(("extended", [(exons[0][0] - 450, exons[0][1])] + list(exons[1:])))           # left end extended by 450 bp
+        out.append(("extended-right", list(exons[:-1]) + [(exons[-1][0], exons[-1][1] + 450)]))   # right end extended by 450 bp
+    res = [{"blocks": [tuple(b) for b in bl], "extras": {"reverse": strand == "-"}, "kind": kind, "T": tid, "chr": chrom} for kind, bl in out
+           if all(b[0] >= 1 for b in bl)]
+    # the same distant ends on reads that carry a polyA tail / polyT head (the tail must not make a distant end acceptable)
+    for kind, bl in out:
+        if kind in ("extended", "extended-right") and all(b[0] >= 1 for b in bl):
+            ex = {"reverse": strand == "-"}
+            if strand == "+":
+                ex["clip_right"] = "A" * 30
+            else:
+                ex["clip_left"] = "T" * 30
+            res.append({"blocks": [tuple(b) for b in bl], "extras": ex, "kind": kind + "+tail", "T": tid, "chr": chrom})
+    return res
 
 
 # ------------------------------------------------------------------------------------------------ reference model
